@@ -116,7 +116,12 @@ impl TxtppPath for PathBuf {
                 Report::new(PathError::from(self))
                     .attach_printable(format!("path does not have {TXTPP_EXT} extension"))
             })?;
-            p.set_extension(self_ext);
+            // append instead of set_extension, which would replace a remaining
+            // extension (`a.b.txtpp.c` is `a.b.c`, not `a.c`)
+            let mut name = p.file_name().unwrap_or_default().to_os_string();
+            name.push(".");
+            name.push(self_ext);
+            p.set_file_name(name);
         }
 
         Ok(p)
